@@ -500,6 +500,13 @@ func (s *Store) Bin(op Op, a, b *Term) *Term {
 		if a.op == OpConst {
 			a, b = b, a
 		}
+		// byte assembly: zext(lo) | (zext(hi) << k)  ==>  zext(concat(hi, lo)) when lo fits in k bits
+		if r := s.orAsConcat(a, b); r != nil {
+			return r
+		}
+		if r := s.orAsConcat(b, a); r != nil {
+			return r
+		}
 		if b.op == OpConst {
 			if b.k == 0 {
 				return a
@@ -534,6 +541,43 @@ func (s *Store) Bin(op Op, a, b *Term) *Term {
 		}
 	}
 	return s.mk(op, w, a, b, nil, 0, "")
+}
+
+// lowBits returns (inner, true) when t == zero_extend(inner).
+func lowBits(t *Term) (*Term, bool) {
+	if t.op == OpZExt {
+		return t.a, true
+	}
+	return nil, false
+}
+
+// orAsConcat recognises lo | (hi << k) with lo = zext(l), hi-part = zext(h), l.w <= k, h.w+k <= w.
+func (s *Store) orAsConcat(lo, hiSh *Term) *Term {
+	if hiSh.op != OpShl || hiSh.b.op != OpConst {
+		return nil
+	}
+	k := hiSh.b.k
+	w := lo.w
+	if k == 0 || k >= uint64(w) {
+		return nil
+	}
+	l, ok := lowBits(lo)
+	if !ok || uint64(l.w) > k {
+		return nil
+	}
+	var h *Term
+	if hi, ok := lowBits(hiSh.a); ok {
+		h = hi
+	} else {
+		return nil
+	}
+	if uint64(h.w)+k > uint64(w) {
+		// the shift drops high bits of h: keep only what survives
+		keep := uint8(uint64(w) - k)
+		h = s.Extract(h, keep-1, 0)
+	}
+	lk := s.ZExt(l, uint8(k))
+	return s.ZExt(s.Concat(h, lk), w)
 }
 
 func (s *Store) Un(op Op, a *Term) *Term {
@@ -713,6 +757,22 @@ func (s *Store) Concat(a, b *Term) *Term {
 	}
 	if a.op == OpConst && a.k == 0 {
 		return s.ZExt(b, w)
+	}
+	// adjacent extracts of the same term merge
+	if a.op == OpExtract && b.op == OpExtract && a.a == b.a {
+		alo := uint8(a.k & 0xff)
+		bhi, blo := uint8(b.k>>8), uint8(b.k&0xff)
+		if alo == bhi+1 {
+			return s.Extract(a.a, uint8(a.k>>8), blo)
+		}
+	}
+	// extract(x, hi, lo) ++ x[lo-1:0] where b is the full low part of x
+	if a.op == OpExtract && a.a == b && uint8(a.k&0xff) == b.w {
+		return s.Extract(b, uint8(a.k>>8), 0)
+	}
+	// nested: a ++ (b1 ++ b2) where a and b1 are adjacent extracts
+	if a.op == OpExtract && b.op == OpConcat && b.a.op == OpExtract && a.a == b.a.a && uint8(a.k&0xff) == uint8(b.a.k>>8)+1 {
+		return s.Concat(s.Extract(a.a, uint8(a.k>>8), uint8(b.a.k&0xff)), b.b)
 	}
 	return s.mk(OpConcat, w, a, b, nil, 0, "")
 }
